@@ -330,6 +330,8 @@ class Gen:
                 if r.random() < 0.5 and t != "bool":
                     bw = r.choice([1, 3, 7, 8, 9, 15, 17, 31, 32, 33, 63])
                     bw = min(bw, W[t])
+                    if W[t] == 64 and bw <= 32:
+                        bw = r.choice([33, 40, 63, 64])      # promotion of a narrower long bit-field is implementation-defined (gcc: int, clang/cproc: long)
                 fields.append(("f%d" % j, T(t), bw))
             self.structs.append(struct("S%d" % (len(self.structs) + 1), fields))
         for _ in range(r.randrange(2, 6)):
@@ -462,6 +464,8 @@ def init_program(rng, charsigned):
             bw = 0
             if t != "bool" and rng.random() < 0.65:
                 bw = min(W[t], rng.choice([1, 2, 3, 4, 5, 7, 8, 9, 12, 13, 15, 16, 17, 20, 24, 31, 32, 33, 40, 63]))
+                if W[t] == 64 and bw <= 32:
+                    bw = rng.choice([33, 40, 48, 63, 64])
             al = rng.choice([16, 32, 8]) if bw == 0 and rng.random() < 0.15 else 0
             fields.append(("f%d" % j, T(t), bw, al))
         structs.append(struct("I%d" % (si + 1), fields))
@@ -579,7 +583,7 @@ def random_programs(ctx, objdir, runtime):
                 os.unlink(x)
             except OSError:
                 pass
-        return (pid, "ok" if rc not in (99, -999) and rc >= 0 else "run", (rc, se[:500]), so.split())
+        return (pid, "ok" if rc not in (il2c.ASAN_RC, -999) and rc >= 0 else "run", (rc, se[:500]), so.split())
     nat = {x[0]: x for x in vlib.pmap(native, defined)}
     audits = 0
     for pid, (p, t, src, out) in defined:
